@@ -514,6 +514,12 @@ func c34History(r *Rec, prop string, h int, nBlocks int) {
 				}})
 			case x < 63 && x >= 60:
 				ids := [][]uint64{{basketID}, {basketID, basketID}, {basketID, basketID, basketID}}[r.Rng.Intn(3)]
+				// right behind a fee-bearing swap, so that there is a surplus to pay out
+				ops = append(ops, c34Op{"basket-swap", s, func(ctx sdk.Context) error {
+					_, err := e.bs.BasketTokenSwap(sdk.WrapSDKContext(ctx), &baskettypes.MsgBasketTokenSwap{Sender: A[s].String(), BasketId: basketID,
+						Pairs: []baskettypes.SwapPair{{InAmount: sdk.NewInt64Coin("ukex", 5000+amt), OutToken: "ueth"}}})
+					return err
+				}})
 				ops = append(ops, c34Op{"basket-withdraw-surplus", sudo, func(ctx sdk.Context) error {
 					return app.BasketKeeper.BasketWithdrawSurplus(ctx, baskettypes.ProposalBasketWithdrawSurplus{BasketIds: ids, WithdrawTarget: A[other].String()})
 				}})
